@@ -181,7 +181,7 @@ fn vjson(v: &Version) -> Value {
 /// near-identical identifiers: differ only in case / digits / hyphens
 fn confusable_ids(r: &mut Rng) -> (Vec<Identifier>, Vec<Identifier>) {
     const FAM: &[&str] = &["a", "A", "a-", "a0", "a1", "a10", "a2", "-a", "aa", "aA", "Aa", "a--", "a-0", "0a", "00a"];
-    let n = if r.chance(1, 6) { 5 + r.below(5) as usize } else { 1 + r.below(4) as usize };
+    let n = if r.chance(1, 6) { 5 + r.below(14) as usize } else { 1 + r.below(4) as usize };
     let mut x: Vec<Identifier> = (0..n).map(|_| identifier(r)).collect();
     let mut y = x.clone();
     // the difference sits anywhere, often at the very end of a long list
@@ -339,6 +339,8 @@ fn vtext<W: Write>(r: &mut Rng, n: usize, out: &mut W) -> usize {
         b"0".to_vec(), b"1".to_vec(), b"9".to_vec(), b".".to_vec(), b"-".to_vec(), b"+".to_vec(), b"v".to_vec(), b"V".to_vec(),
         b"a".to_vec(), b"Z".to_vec(), b"x".to_vec(), b"*".to_vec(), b" ".to_vec(), b"\t".to_vec(), b"\n".to_vec(), b"_".to_vec(),
         "é".as_bytes().to_vec(), b"~".to_vec(), b"^".to_vec(), b"=".to_vec(), b"\0".to_vec(), "Ł".as_bytes().to_vec(),
+        // white space that is not a blank of the grammar: CR, VT, FF, NBSP, EM SPACE, BOM
+        b"\r".to_vec(), b"\x0b".to_vec(), b"\x0c".to_vec(), "\u{a0}".as_bytes().to_vec(), "\u{2003}".as_bytes().to_vec(), "\u{feff}".as_bytes().to_vec(),
     ];
     let mut all: Vec<Vec<u8>> = Vec::new();
     for b in &bases {
@@ -995,6 +997,7 @@ fn soup<W: Write>(r: &mut Rng, n: usize, out: &mut W) -> usize {
         "0", "1", "2", "9", "10", "900719925474099", "900719925474100", "18446744073709551615", "18446744073709551616",
         ".", ".", "-", "+", "*", "x", "X", "v", "^", "~", "~>", ">", "<", ">=", "<=", "=", "|", "||", " ", " ", "\t", "a", "-a", "-0",
         "é", " - ", "1.2.3", "\n", "\0", "😀", "-rc.1", "+b", ".x", ".*", "1.x", "foo",
+        "\r", "\x0b", "\x0c", "\u{a0}", "\u{2003}", "\u{feff}", "\u{2028}",
     ];
     let emit = |out: &mut W, t: &str| writeln!(out, "{}", json!({"op":"soup","text":bytes(t)})).unwrap();
     let mut cnt = 0;
